@@ -43,6 +43,7 @@ OPTION_SETS = [
     ('all-off', dict(OFF)),
     ('keep-annotations', dict(remove_annotations=False)),
     ('keep-annotations-globals', dict(remove_annotations=False, rename_globals=True)),
+    ('no-rename-locals', dict(rename_locals=False)),
 ]
 
 # ---------------------------------------------------------------------------------------------------------------------
@@ -122,6 +123,17 @@ for _lit in ("'ab'", "'abcdef'", "b'ab'", 'None', 'True', 'False', '0.0', '1.0',
         PROGRAMS.append('def repeated():\n    return [%s]\nprint(repeated())' % ','.join([_lit] * _k))
         if _k in (3, 6):
             PROGRAMS.append('print([%s])' % ','.join([_lit] * _k))
+
+# programs that reproduce the recorded known findings (genuine defects of the pinned tree that were not repaired): tagged so that they
+# are reported as KNOWN-FINDING and any OTHER failure is still a violation
+KNOWN_PROGRAMS = {
+    "class Base:\n    marker='from Base'\nobject=Base\nclass Derived(object):\n    pass\nprint(Derived.marker)": 'shadowed-object-base-removed',
+    "def noisy():\n    print('annotation evaluated')\n    return int\ndef annotated(x: noisy()) -> noisy():\n    return x\nprint(annotated(1))": 'annotation-with-side-effect-removed',
+    "value='global value'\ndef outer():\n    value='function value'\n    class Inner:\n        seen=value\n        value='class value'\n    return Inner.seen\nprint(outer())": 'class-body-name-read-and-assigned',
+}
+PROGRAMS += list(KNOWN_PROGRAMS)
+# fixed in 7a1a7a4: a regression is an ordinary violation
+PROGRAMS.append("def collect(a, /, **kw):\n    return a, sorted(kw.items())\nprint(collect(1, a=2))")
 
 TAINT_TRIGGERS = ["eval('1+1')", "exec('pass')", "sorted(k for k in locals() if not k.startswith('_'))", "len(globals())>0", "isinstance(vars(), dict)",
                   "vars(sys.modules[__name__]) is not None"]
@@ -488,8 +500,29 @@ def main(argv):
         a, b = sorted(all_identifiers(ast.parse(STAR_IMPORT))), sorted(all_identifiers(ast.parse(out)))
         if a != b:
             fails.append({'oracle': 'freeze', 'options': label, 'input': STAR_IMPORT, 'failure': 'identifiers changed in a module with a star import: %s' % sorted(set(a) ^ set(b))})
+    # attribution: a behaviour failure that persists with renaming and hoisting switched off is not a renaming failure (C03/C06 ask for 'behaviour:rename')
+    for f in fails:
+        if f['oracle'] != 'behaviour':
+            continue
+        try:
+            kw = dict(OPTION_SETS).get(f['options'])
+            if kw is None:
+                kw = eval(f['options']) if f['options'].startswith('{') else {}
+            ref = run(f['input'])[0]
+            if kw.get('hoist_literals', True) and run(python_minifier.minify(f['input'], **dict(kw, hoist_literals=False)))[0] == ref:
+                f['attributed'] = 'hoist'
+            else:
+                kw = dict(kw, rename_locals=False, rename_globals=False, hoist_literals=False)
+                f['attributed'] = 'other' if run(python_minifier.minify(f['input'], **kw))[0] != ref else 'rename'
+        except Exception:
+            f['attributed'] = 'rename'
     if only:
-        fails = [f for f in fails if f['oracle'] in only.split(',')]
+        want = only.split(',')
+        fails = [f for f in fails if f['oracle'] in want or (f['oracle'] == 'behaviour' and 'behaviour:' + f.get('attributed', 'rename') in want)]
+    for f in fails:
+        if f.get('input') in KNOWN_PROGRAMS and not f.get('mechanism'):
+            f['mechanism'] = KNOWN_PROGRAMS[f['input']]
+    fails.sort(key=lambda f: bool(f.get('mechanism')))
     print(json.dumps({'cases': cases, 'failures': fails[:60], 'n_failures': len(fails),
                       'by_oracle': dict((o, len([f for f in fails if f['oracle'] == o])) for o in sorted(set(f['oracle'] for f in fails)))}))
 
